@@ -784,7 +784,7 @@ def main(tier, seed):
                 "insert_function_call_on_unpickled_object plain/compiled x args) with fresh argument values "
                 "(ints, text, bytes, nested lists/dicts).  distinct = (base bytes, mode); non-trivial = the "
                 "base performs at least one global resolution or sink call, or has >= 8 opcodes")
-    built = chk.regen_and_build(["proofs/InjectProofs.vo", "proofs/InjectSevProofs.vo"])
+    built = chk.regen_and_build(["proofs/InjectProofs.vo", "proofs/InjectSevProofs.vo", "proofs/InjectFkFrame.vo"])
     if built:
         chk.prove()
     rng = chk.rng
@@ -871,7 +871,34 @@ def main(tier, seed):
                f"value, empty stack at STOP, single final STOP, severity), {evaluated} injections",
                not prop_bad, brief(prop_bad))
 
+    # severity only (the bases are not loadable for real: BUILD applied to a builtin): base pickles that alias
+    # builtins eval / exec through a variable (C04's alias escape D18) or shadow the name by a stdlib import (D20)
+    from fickling.analysis import check_safety
+    from fickling.fickle import Pickled
+    alias_bad = []
+    alias_bases = [b"\x80\x02cbuiltins\neval\nNb(X\x01\x00\x00\x001tR.",
+                   b"cbuiltins\nexec\n}b(V1\ntR.",
+                   b"\x80\x02cast\neval\n0cbuiltins\neval\n(X\x01\x00\x00\x001tR."]
+    for ab in alias_bases:
+        for m in mode_variants(rng, 5):
+            if m["helper"] == "insert_magic_int" or (m["helper"] != "callobj" and m["callee"][1] not in ("eval", "exec")):
+                continue
+            try:
+                pk = Pickled.load(ab)
+                apply_mode(pk, m)
+                sev = check_safety(Pickled.load(pk.dumps())).severity.name
+            except Exception as e:
+                sev = f"raised {type(e).__name__}: {e}"
+            chk.count()
+            if sev != "OVERTLY_MALICIOUS":
+                alias_bad.append({"base_hex": ab.hex(), "mode": m, "severity": sev})
+    chk.oblige("eval/exec injections into base pickles that alias or shadow eval/exec are rated OVERTLY_MALICIOUS "
+               f"({len(alias_bases)} bases x every eval/exec mode)", not alias_bad, json.dumps(alias_bad[:2]))
+
     def search():
+        for e in alias_bad:
+            return {"case": {"kind": "alias-base", "hex": e["base_hex"], "mode": e["mode"]},
+                    "oracle": ["eval-exec-injection-not-OVERTLY_MALICIOUS: " + e["severity"]]}
         for e in prop_bad:
             return {"case": e["case"], "oracle": e["fails"]}
         # a correspondence failure alone: look at the same cases with the oracle only
